@@ -197,20 +197,50 @@ func c04Response(r *R, rule string) {
 			continue
 		}
 		n++
-		flds, _, ok := retFields(pt, 0)
+		flds, vals, ok := retFields(pt, 0)
 		key := fmt.Sprintf("path#%d", n)
 		if !ok {
 			r.c.Stuck(rule, key, r.p.Pos(fn.Pos()), "the response is not built as a struct literal")
 			continue
 		}
 		site := r.p.Pos(fn.Pos())
-		switch {
-		case pt.Has("-validationErr==nil"):
-			r.c.Check(flds["RequestAccepted"] == "false", rule, key+"/Accepted", site, "not accepted when validation erred", "RequestAccepted is "+flds["RequestAccepted"]+" on a path with a validation error")
-		case pt.Has("+validationErr==nil"):
-			r.c.Check(flds["RequestAccepted"] == "validationResult.Accepted", rule, key+"/Accepted", site, "accepted = validator's Accepted when no error", "RequestAccepted is "+flds["RequestAccepted"]+" instead of validationResult.Accepted")
-		default:
-			r.c.Bad(rule, key+"/Accepted", site, "RequestAccepted ("+flds["RequestAccepted"]+") is computed without testing the validation error")
+		// RequestAccepted must equal (validationErr == nil ∧ validationResult.Accepted) for every
+		// assignment of the two conditions that is consistent with the path
+		{
+			aE, aA := "validationErr==nil", "validationResult.Accepted"
+			okAll, detail := true, ""
+			for bits := 0; bits < 4; bits++ {
+				asg := map[string]bool{aE: bits&1 != 0, aA: bits&2 != 0}
+				cons := true
+				for _, a := range pt.Atoms {
+					if v, ok := asg[a.S]; ok && v != a.Pol {
+						cons = false
+					}
+				}
+				if !cons {
+					continue
+				}
+				got, known := false, false
+				switch flds["RequestAccepted"] {
+				case "true":
+					got, known = true, true
+				case "false":
+					got, known = false, true
+				default:
+					if v := vals["RequestAccepted"]; v != nil {
+						at := pt.D.NormAtom(v, true)
+						if x, ok := asg[at.S]; ok {
+							got, known = x == at.Pol, true
+						}
+					}
+				}
+				want := asg[aE] && asg[aA]
+				if !known || got != want {
+					okAll = false
+					detail = fmt.Sprintf("with validationErr==nil=%v and Accepted=%v the reply says Accepted=%s (%v), the property requires %v", asg[aE], asg[aA], flds["RequestAccepted"], got, want)
+				}
+			}
+			r.c.Check(okAll, rule, key+"/Accepted", site, "Accepted = (no validation error ∧ validator accepted)", detail)
 		}
 		r.c.Check(flds["Paused"] == "paused", rule, key+"/Paused", site, "Paused = paused", "Paused is "+flds["Paused"])
 		r.c.Check(flds["TransferId"] == "id", rule, key+"/TransferId", site, "TransferId = id", "TransferId is "+flds["TransferId"])
